@@ -167,11 +167,18 @@ func registerEdwardsFor(ex *Exec, pkg string) {
 				ok := c.Cmp(OUlt, le, c.BVBig(256, edL))
 				val := c.App(uf, SInt, le)
 				f := &Fork{}
-				f.Alts = append(f.Alts, Alt{Cond: ok, Ret: lazyEdSet{recv: a[0], v: &ScalarV{V: val}}})
+				// canonical encodings are in bijection with the values: encoding the decoded value gives the bytes back
+				back := c.Eq(c.App("scb", SBV(256), val), le)
+				f.Alts = append(f.Alts, Alt{Cond: c.BAnd(ok, back), Ret: lazyEdSet{recv: a[0], v: &ScalarV{V: val}}})
 				f.Alts = append(f.Alts, Alt{Cond: c.BNot(ok), Ret: TupleV{Ptr{}, ex.newErr(s, "invalid scalar encoding")}})
 				return nil, f, nil
 			}
-			r, _, err := setS(ex, s, a[0], ex.Ctx.App(uf, SInt, ex.leConcat(bs)))
+			val := ex.Ctx.App(uf, SInt, ex.leConcat(bs))
+			if uf == "sc_clamp" {
+				// a clamped scalar (2^254 + 8j) is never a multiple of the group order
+				s.PC = append(s.PC, ex.Ctx.BNot(ex.Ctx.Eq(val, ex.Ctx.IntI(0))))
+			}
+			r, _, err := setS(ex, s, a[0], val)
 			return TupleV{r, IfaceV{}}, nil, err
 		}
 	}
@@ -302,6 +309,36 @@ func registerEdwardsFor(ex *Exec, pkg string) {
 		return setP(ex, s, a[0], t, ex.Ctx.IntOp(OIAdd, u, b.V))
 	}
 	wrap("(*"+pkg+".Point).VarTimeDoubleScalarBaseMult", dsm)
+	msm := func(ex *Exec, s *State, cc *ssa.CallCommon, a []Value) (Value, *Fork, error) {
+		ss, err := ex.sliceElems(s, a[1].(SliceV))
+		if err != nil {
+			return nil, nil, err
+		}
+		ps, err := ex.sliceElems(s, a[2].(SliceV))
+		if err != nil {
+			return nil, nil, err
+		}
+		if len(ss) != len(ps) {
+			return nil, nil, &goPanic{"edwards25519: called MultiScalarMult with different size inputs"}
+		}
+		c := ex.Ctx
+		t, u := c.BV(3, 0), c.IntI(0)
+		for i := range ss {
+			k, err := sc(ex, s, ss[i])
+			if err != nil {
+				return nil, nil, err
+			}
+			p, err := pt(ex, s, ps[i])
+			if err != nil {
+				return nil, nil, err
+			}
+			ti, ui := smul(ex, k, p)
+			t, u = c.Add(t, ti), c.IntOp(OIAdd, u, ui)
+		}
+		return setP(ex, s, a[0], t, u)
+	}
+	wrap("(*"+pkg+".Point).VarTimeMultiScalarMult", msm)
+	wrap("(*"+pkg+".Point).MultiScalarMult", msm)
 	ptBin := func(sub bool) ModelFn {
 		return func(ex *Exec, s *State, cc *ssa.CallCommon, a []Value) (Value, *Fork, error) {
 			x, err := pt(ex, s, a[1])
@@ -373,6 +410,13 @@ func registerEdwardsFor(ex *Exec, pkg string) {
 		c := ex.Ctx
 		enc := c.App("pt_enc", SBV(256), x.T, x.U)
 		s.PC = append(s.PC, c.App("pt_ok", SBool, enc), c.Eq(c.App("pt_t", SBV(3), enc), x.T), c.Eq(c.App("pt_u", SInt, enc), x.U))
+		// Bytes() produces the canonical encoding: y < p = 2^255-19, and never the two encodings of
+		// x = 0 with the sign bit set
+		pm := new(big.Int).Sub(new(big.Int).Lsh(big.NewInt(1), 255), big.NewInt(19))
+		nc1 := new(big.Int).Add(new(big.Int).Lsh(big.NewInt(1), 255), big.NewInt(1))
+		nc2 := new(big.Int).Add(new(big.Int).Lsh(big.NewInt(1), 255), new(big.Int).Sub(pm, big.NewInt(1)))
+		s.PC = append(s.PC, c.Cmp(OUlt, c.Extract(enc, 254, 0), c.BVBig(255, pm)),
+			c.BNot(c.Eq(enc, c.BVBig(256, nc1))), c.BNot(c.Eq(enc, c.BVBig(256, nc2))))
 		bs := make([]*Term, 32)
 		for i := 0; i < 32; i++ {
 			bs[i] = c.Extract(enc, 8*i+7, 8*i)
